@@ -1,4 +1,5 @@
 import StunVerif.Props.C12
+import StunVerif.Props.SrcFnWrite
 #print axioms StunVerif.C12.raw_toBytes
 #print axioms StunVerif.C12.raw_write_eq
 #print axioms StunVerif.C12.raw_write_short
@@ -10,3 +11,11 @@ import StunVerif.Props.C12
 #print axioms StunVerif.C12.write_into_short
 #print axioms StunVerif.C12.owned_same
 #print axioms StunVerif.C12.src_padded_attr_len
+#print axioms StunVerif.SrcFnWrite.src_byteLen
+#print axioms StunVerif.SrcFnWrite.src_writeAttrsLoop
+#print axioms StunVerif.SrcFnWrite.encBE_mod
+#print axioms StunVerif.SrcFnWrite.tid_word
+#print axioms StunVerif.SrcFnWrite.header_puts
+#print axioms StunVerif.SrcFnWrite.src_writeInto
+#print axioms StunVerif.SrcFnWrite.src_build
+#print axioms StunVerif.SrcFnWrite.build_is_source
